@@ -342,6 +342,10 @@ func (se *SpecEnv) ident(name string) SVal {
 	if v, ok := fr.params[name]; ok {
 		return SVal{T: v, Ty: paramType(fr.fn, name)}
 	}
+	// ghost variable
+	if v, ok := se.st.m["G|"+name]; ok {
+		return SVal{T: v}
+	}
 	// package-level constant or variable
 	if se.pkg != nil {
 		if obj := se.pkg.Scope().Lookup(name); obj != nil {
